@@ -198,6 +198,33 @@ pub fn c12(ctx: &mut Ctx, tier: &str, seed: u64) {
                     if ur != r {
                         ctx.fail("utf8-set_file_name-agrees", None, rp.clone(), format!("utf8 \"{}\" bytes \"{}\"", lossy(&ur), lossy(&r)));
                     }
+                    // with_file_name of the UTF-8, typed and UTF-8-typed forms
+                    let forms: Vec<(&str, Vec<u8>)> = if win {
+                        vec![
+                            ("Utf8Path", Utf8WindowsPath::new(sb).with_file_name(sn).into_string().into_bytes()),
+                            ("Utf8TypedPath", Utf8TypedPath::windows(sb).with_file_name(sn).into_string().into_bytes()),
+                            ("Utf8TypedPathBuf", Utf8TypedPathBuf::from_windows(sb).with_file_name(sn).into_string().into_bytes()),
+                        ]
+                    } else {
+                        vec![
+                            ("Utf8Path", Utf8UnixPath::new(sb).with_file_name(sn).into_string().into_bytes()),
+                            ("Utf8TypedPath", Utf8TypedPath::unix(sb).with_file_name(sn).into_string().into_bytes()),
+                            ("Utf8TypedPathBuf", Utf8TypedPathBuf::from_unix(sb).with_file_name(sn).into_string().into_bytes()),
+                        ]
+                    };
+                    for (name, v) in forms {
+                        if v != r {
+                            ctx.fail("utf8-with_file_name-agrees", None, rp.clone(), format!("{} \"{}\" bytes \"{}\"", name, lossy(&v), lossy(&r)));
+                        }
+                    }
+                }
+                {
+                    let tv: Vec<u8> = if win { TypedPath::windows(b).with_file_name(n).into_vec() } else { TypedPath::unix(b).with_file_name(n).into_vec() };
+                    let mut tb = if win { TypedPathBuf::from_windows(b) } else { TypedPathBuf::from_unix(b) };
+                    tb.set_file_name(n);
+                    if tv != r || tb.into_vec() != r {
+                        ctx.fail("typed-with_file_name-agrees", None, rp.clone(), format!("typed \"{}\" bytes \"{}\"", lossy(&tv), lossy(&r)));
+                    }
                 }
                 if file_name_b(win, &r).as_ref() != Some(n) {
                     ctx.fail("new-file-name-is-n", class, rp.clone(), format!("result \"{}\"", lossy(&r)));
@@ -335,6 +362,42 @@ pub fn c13(ctx: &mut Ctx, tier: &str, seed: u64) {
                                 ctx.fail("utf8-set_extension-agrees", None, rp.clone(), format!("utf8 \"{}\" {}", lossy(&ub), uk));
                             }
                         }
+                    }
+                }
+                // with_extension of the UTF-8, typed and UTF-8-typed forms (separate code paths from set_extension)
+                if let (Ok(ss), Ok(sx)) = (std::str::from_utf8(s), std::str::from_utf8(x)) {
+                    let ur = crate::util::quiet_catch(|| -> Vec<(&'static str, Vec<u8>)> {
+                        if win {
+                            vec![
+                                ("Utf8Path", Utf8WindowsPath::new(ss).with_extension(sx).into_string().into_bytes()),
+                                ("Utf8TypedPath", Utf8TypedPath::windows(ss).with_extension(sx).into_string().into_bytes()),
+                                ("Utf8TypedPathBuf", Utf8TypedPathBuf::from_windows(ss).with_extension(sx).into_string().into_bytes()),
+                            ]
+                        } else {
+                            vec![
+                                ("Utf8Path", Utf8UnixPath::new(ss).with_extension(sx).into_string().into_bytes()),
+                                ("Utf8TypedPath", Utf8TypedPath::unix(ss).with_extension(sx).into_string().into_bytes()),
+                                ("Utf8TypedPathBuf", Utf8TypedPathBuf::from_unix(ss).with_extension(sx).into_string().into_bytes()),
+                            ]
+                        }
+                    });
+                    match ur {
+                        Err(_) => ctx.fail("utf8-with_extension-panics", None, rp.clone(), String::new()),
+                        Ok(forms) => {
+                            for (name, v) in forms {
+                                if v != r {
+                                    ctx.fail("utf8-with_extension-agrees", None, rp.clone(), format!("{} \"{}\" bytes \"{}\"", name, lossy(&v), lossy(&r)));
+                                }
+                            }
+                        }
+                    }
+                }
+                {
+                    let tv: Vec<u8> = if win { TypedPath::windows(s).with_extension(x).into_vec() } else { TypedPath::unix(s).with_extension(x).into_vec() };
+                    let mut tb = if win { TypedPathBuf::from_windows(s) } else { TypedPathBuf::from_unix(s) };
+                    let tk = tb.set_extension(x);
+                    if tv != r || tb.into_vec() != r || tk != ok {
+                        ctx.fail("typed-with_extension-agrees", None, rp.clone(), format!("typed \"{}\" bytes \"{}\"", lossy(&tv), lossy(&r)));
                     }
                 }
                 // repeated application: the second extension wins
@@ -476,12 +539,29 @@ pub fn c16(ctx: &mut Ctx, tier: &str, seed: u64) {
             if tsame != same_c {
                 ctx.fail("typed-checked-same-encoding-agrees", None, format!("conv {} {} {}", se, se, hex(s)), String::new());
             }
+            let tbsame: Result<Vec<u8>, CheckedPathError> = (if src_win { tb.with_windows_encoding_checked() } else { tb.with_unix_encoding_checked() }).map(|x| x.as_bytes().to_vec());
+            if tbsame != same_c {
+                ctx.fail("typed-checked-same-encoding-agrees", None, format!("conv {} {} {}", se, se, hex(s)), "TypedPathBuf".into());
+            }
             if let Ok(st) = std::str::from_utf8(s) {
                 let up = if src_win { Utf8TypedPath::windows(st) } else { Utf8TypedPath::unix(st) };
                 let uchk: Result<Vec<u8>, CheckedPathError> = (if dst_win { up.with_windows_encoding_checked() } else { up.with_unix_encoding_checked() }).map(|x| x.as_str().as_bytes().to_vec());
                 let uconv = if dst_win { up.with_windows_encoding() } else { up.with_unix_encoding() };
-                if uchk != convc || uconv.as_str().as_bytes() != conv.as_slice() {
+                if uchk != convc || uconv.as_str().as_bytes() != conv.as_slice() || uconv.is_windows() != dst_win {
                     ctx.fail("utf8-typed-conversion-agrees", None, rp.clone(), String::new());
+                }
+                let upb = up.to_path_buf();
+                let ubchk: Result<Vec<u8>, CheckedPathError> = (if dst_win { upb.with_windows_encoding_checked() } else { upb.with_unix_encoding_checked() }).map(|x| x.as_str().as_bytes().to_vec());
+                let ubconv = if dst_win { upb.with_windows_encoding() } else { upb.with_unix_encoding() };
+                if ubchk != convc || ubconv.as_str().as_bytes() != conv.as_slice() || ubconv.is_windows() != dst_win {
+                    ctx.fail("utf8-typed-conversion-agrees", None, rp.clone(), "Utf8TypedPathBuf".into());
+                }
+                // same-encoding checked shortcuts of the UTF-8 forms (typed borrowed, typed owned, concrete)
+                let s1: Result<Vec<u8>, CheckedPathError> = (if src_win { up.with_windows_encoding_checked() } else { up.with_unix_encoding_checked() }).map(|x| x.as_str().as_bytes().to_vec());
+                let s2: Result<Vec<u8>, CheckedPathError> = (if src_win { upb.with_windows_encoding_checked() } else { upb.with_unix_encoding_checked() }).map(|x| x.as_str().as_bytes().to_vec());
+                let s3: Result<Vec<u8>, CheckedPathError> = if src_win { Utf8WindowsPath::new(st).with_windows_encoding_checked().map(|x| x.into_string().into_bytes()) } else { Utf8UnixPath::new(st).with_unix_encoding_checked().map(|x| x.into_string().into_bytes()) };
+                if s1 != same_c || s2 != same_c || s3 != same_c {
+                    ctx.fail("utf8-checked-same-encoding-agrees", None, format!("conv {} {} {}", se, se, hex(s)), format!("Utf8TypedPath {:?} Utf8TypedPathBuf {:?} Utf8Path {:?} bytes {:?}", s1.is_ok(), s2.is_ok(), s3.is_ok(), same_c.is_ok()));
                 }
             }
             if let Ok(st) = std::str::from_utf8(s) {
